@@ -902,7 +902,11 @@ Definition step (var : variant) (reg : registry) (g : guard) (st : state) (o : o
   | OBoot cfg steps em f => do_boot var reg g st cfg steps em f
   end.
 
-(* the operations a northbound client performs (no LoadConfig, no start-up) *)
+(* the operations a northbound client performs (no LoadConfig, no start-up).
+   NOTE on ORollback: it is plain only because version records never carry a configuration (conf.go:373
+   `Config: nil`), so Rollback(toVersion) always ends in "invalid config type".  If versions ever carry
+   configurations, Rollback publishes without the lock (createSessionUnlocked ignores lockOwner) and without
+   any of the pre-commit validators (conf.go:572), and C13_isolation would no longer hold for it. *)
 Definition plain (o : op) : bool := match o with OLoad _ _ _ _ | OBoot _ _ _ _ => false | _ => true end.
 
 Fixpoint run (var : variant) (reg : registry) (g : guard) (st : state) (ops : list op) : state :=
